@@ -26,7 +26,7 @@ ELEMS = ['a', 'b', 'x', '1', '2', '\\alpha', '\\beta', '\\sum', 'f(x)', 'x^2', '
 SPACES = ['\\;', '\\quad', '\\,', '~', '\\ ', '\\qquad', '\\:']
 PUNCT = ['.', ',', ';', ':']
 ENVS = ['align', 'equation', '\\[', 'align*', 'eqnarray', 'gather', '$$', 'displaymath', 'equation*', 'flalign',
-        'alignat', 'eqnarray*', 'multiline', 'gather*']
+        'alignat', 'eqnarray*', 'multiline', 'gather*', 'alignat*', 'flalign*', 'multiline*']
 BUILTIN_ENVS = ['equation', '\\[', 'eqnarray', '$$', 'displaymath', 'eqnarray*']
 
 
